@@ -309,9 +309,9 @@ def is_labelled(ax) -> bool:
 
 
 class AArr:
-    __slots__ = ("axes", "term", "buf", "view", "stamp", "dtype")
+    __slots__ = ("axes", "term", "buf", "view", "stamp", "dtype", "origin")
 
-    def __init__(self, axes, term, buf=None, view=False, dtype="float"):
+    def __init__(self, axes, term, buf=None, view=False, dtype="float", origin=None):
         self.axes = tuple(axes)
         keys = [vkey(a) for a in self.axes if is_labelled(a)]
         if len(keys) != len(set(keys)) and term is not None and free_vars(term):
@@ -321,6 +321,7 @@ class AArr:
         self.view = view
         self.stamp = self.buf.writes
         self.dtype = dtype
+        self.origin = origin        # for a view: (the array it was taken from, label substitution or None) - a view sees later writes
 
     # ---- numpy attributes
     @property
@@ -333,6 +334,13 @@ class AArr:
 
     def check_fresh(self):
         if self.view and self.buf.writes != self.stamp:
+            o = self.origin
+            if o is not None and o[0].buf is self.buf and self.buf.view_writer is None:
+                base, m = o
+                base.check_fresh()
+                self.term = subst(base.term, m) if m else base.term       # the view shows what its base holds now
+                self.stamp = self.buf.writes
+                return
             raise ModelAbort("a view is read after its base array was written: outside the modelled subset")
         if self.buf.view_writer is not None and self.buf.view_writer is not self:
             raise ModelAbort("an array is read after its memory was written through a view of it: outside the modelled subset")
@@ -588,7 +596,7 @@ def einsum(spec: str, *ops):
     n_arr = sum(isinstance(o, AArr) for o in ops)
     if n_arr == 1 and not summed:
         base = next(o for o in ops if isinstance(o, AArr))
-        return AArr(out_axes, t, base.buf, view=True, dtype=base.dtype)      # a one-operand einsum without reduction is a view
+        return AArr(out_axes, t, base.buf, view=True, dtype=base.dtype, origin=(base, None))      # a one-operand einsum without reduction is a view
     return AArr(out_axes, t, Buf("einsum"), dtype=common_dtype(ops))
 
 
@@ -808,7 +816,7 @@ def getitem(a: AArr, idx):
     axes, m, basic = index_plan(a, idx)
     t = subst(a.term, m) if m else a.term
     if basic:
-        return AArr(axes, t, a.buf, view=True, dtype=a.dtype)
+        return AArr(axes, t, a.buf, view=True, dtype=a.dtype, origin=(a, m or None))
     return AArr(axes, t, Buf("advanced index"), dtype=a.dtype)
 
 
@@ -934,7 +942,7 @@ def transpose(a: AArr, perm=None):
     perm = [int(p) % a.ndim for p in perm]
     if sorted(perm) != list(range(a.ndim)):
         raise NumpyRaise("ValueError", "axes don't match array")
-    return AArr([a.axes[p] for p in perm], a.term, a.buf, view=True, dtype=a.dtype)
+    return AArr([a.axes[p] for p in perm], a.term, a.buf, view=True, dtype=a.dtype, origin=(a, None))
 
 
 def moveaxis(a: AArr, src, dst):
@@ -951,7 +959,7 @@ def expand_dims(a: AArr, axis):
     axs = sorted(int(x) % n_out for x in req)
     for k in axs:
         axes.insert(k, ONE)
-    return AArr(axes, a.term, a.buf, view=True, dtype=a.dtype)
+    return AArr(axes, a.term, a.buf, view=True, dtype=a.dtype, origin=(a, None))
 
 
 def reshape(a: AArr, shape):
@@ -986,7 +994,7 @@ def reshape(a: AArr, shape):
         raise ModelAbort("reshape that merges or splits axes")
     it = iter(src)
     axes = [ONE if s == 1 else next(it) for s in shape]
-    return AArr(axes, a.term, a.buf, view=True, dtype=a.dtype)
+    return AArr(axes, a.term, a.buf, view=True, dtype=a.dtype, origin=(a, None))
 
 
 def same_entries(a: AArr, b: AArr) -> bool:
